@@ -457,6 +457,18 @@ func cmdDbg(args []string) int {
 	fs.Parse(args)
 	var fixed []dbgeng.Case
 	if *replay != "" {
+		// an export / import failure belongs to a whole run: re-run it
+		if b, err := os.ReadFile(*replay); err == nil {
+			for _, l := range strings.Split(string(b), "\n") {
+				var sd int64
+				var tr string
+				if n, _ := fmt.Sscanf(l, "# whole run: seed=%d tier=%s", &sd, &tr); n == 2 {
+					*seed, *tier, *replay = sd, tr, ""
+				}
+			}
+		}
+	}
+	if *replay != "" {
 		c, err := dbgeng.LoadCase(*replay)
 		if err != nil {
 			fmt.Println(err)
